@@ -8,6 +8,7 @@ mod checks;
 mod faultrng;
 mod free;
 mod group;
+mod miri;
 mod observe;
 mod refmodel;
 mod runner;
@@ -172,6 +173,139 @@ fn in_children<C: Check>(check: &C, name: &str, opts: &Opts) -> Vec<runner::Extr
     v
 }
 
+const RATES: [&str; 3] = ["0.01", "0.05", "0.2"];
+
+fn miri_runs_c11(opts: &Opts) -> Vec<miri::MiriRun> {
+    let n = if std::env::var("BPSIM_NO_MIRI").is_ok() { 0 } else if opts.tier == Tier::Quick { 32 } else { 3072 };
+    (0..n)
+        .map(|i| {
+            let seed = (opts.seed % 1_000_000) * 10_000 + i;
+            miri::MiriRun {
+                args: vec!["statics-race".into(), (2 + i % 3).to_string(), (i / 3 % 3).to_string()],
+                seed,
+                preemption_rate: RATES[(i % 3) as usize].into(),
+            }
+        })
+        .collect()
+}
+
+fn miri_runs_c18(opts: &Opts) -> Vec<miri::MiriRun> {
+    if std::env::var("BPSIM_NO_MIRI").is_ok() {
+        return vec![];
+    }
+    let mut v = Vec::new();
+    let base = (opts.seed % 1_000_000) * 10_000 + 5_000;
+    let (n_table, n_race, n_full) = if opts.tier == Tier::Quick { (10u64, 6u64, 0u64) } else { (96, 96, 48) };
+    for i in 0..n_full {
+        v.push(miri::MiriRun {
+            args: vec!["shared-params".into(), (2 + i % 2).to_string(), "1".into()],
+            seed: base + 2_000 + i,
+            preemption_rate: RATES[(i % 3) as usize].into(),
+        });
+    }
+    for i in 0..n_table {
+        v.push(miri::MiriRun { args: vec!["shared-table".into(), (2 + i % 2).to_string()], seed: base + i, preemption_rate: RATES[(i % 3) as usize].into() });
+    }
+    for i in 0..n_race {
+        v.push(miri::MiriRun {
+            args: vec!["statics-race".into(), (2 + i % 3).to_string(), (i % 3).to_string()],
+            seed: base + 1_000 + i,
+            preemption_rate: RATES[(i % 3) as usize].into(),
+        });
+    }
+    v
+}
+
+/// First use of the lazily initialised statics in different orders, each in a fresh process.
+fn fresh_process_gens_phase() -> runner::ExtraPhase {
+    let bin = std::env::current_exe().expect("current exe");
+    let mut ph = runner::ExtraPhase { name: "fresh_process_first_use_orders".into(), ..Default::default() };
+    let orders = ["1", "6", "3,1,6", "6,1", "2,5,4,3", "1,2,3,4,5,6", "6,5,4,3,2,1", "4,4,4"];
+    let mut distinct = std::collections::BTreeSet::new();
+    for o in orders {
+        let out = std::process::Command::new(&bin).arg("gens-digest").arg(o).output();
+        let Ok(out) = out else {
+            ph.error = Some("cannot spawn fresh process".into());
+            return ph;
+        };
+        let txt = String::from_utf8_lossy(&out.stdout).to_string();
+        for l in txt.lines() {
+            let mut it = l.split_whitespace();
+            if it.next() != Some("GENS") {
+                continue;
+            }
+            let ext: usize = it.next().and_then(|s| s.parse().ok()).unwrap_or(0);
+            let got = it.next().unwrap_or("");
+            ph.evaluations += 1;
+            distinct.insert(format!("{}@{}", ext, o));
+            if got != checks::c11::gens_digest_reference(ext) {
+                ph.found.push((
+                    runner::Violation::new(
+                        "generator_differs_from_documented_derivation",
+                        "fresh process",
+                        format!("fresh process constructing Pedersen generators in order [{}]: generators of extension degree {} differ from the reference derivation", o, ext),
+                    ),
+                    serde_json::json!({"fresh_process_gens_order": o}),
+                ));
+            }
+        }
+        if !out.status.success() {
+            ph.error = Some(format!("gens-digest {} exited with {:?}", o, out.status.code()));
+        }
+    }
+    *ph.faults.entry("fresh_process_first_use_order".into()).or_insert(0) += orders.len() as u64;
+    ph.distinct = distinct.len() as u64;
+    ph.info = serde_json::json!({"orders": orders});
+    ph
+}
+
+fn fresh_digest(group: &str, op: &checks::c18::Op) -> Option<String> {
+    let bin = std::env::current_exe().ok()?;
+    let out = std::process::Command::new(&bin)
+        .arg("single-op")
+        .arg(group)
+        .arg(serde_json::to_string(op).ok()?)
+        .output()
+        .ok()?;
+    String::from_utf8_lossy(&out.stdout).lines().find_map(|l| l.strip_prefix("DIGEST ").map(|s| s.to_string()))
+}
+
+/// A sample of operations is executed as the first library call of a fresh process.
+fn fresh_process_ops_phase(opts: &Opts) -> runner::ExtraPhase {
+    let mut ph = runner::ExtraPhase { name: "fresh_process_single_operations".into(), ..Default::default() };
+    let c = checks::c18::C18;
+    let n_scen = if opts.tier == Tier::Quick { 6 } else { 40 };
+    let mut distinct = std::collections::BTreeSet::new();
+    for idx in 0..n_scen {
+        let mut rng = simrng::SimRng::for_run(opts.seed, "C18", idx);
+        let sc = c.generate(&mut rng, opts.tier, idx);
+        for client in sc.clients.iter().take(2) {
+            for op in client.iter().filter(|o| !matches!(o, checks::c18::Op::DropClones)).take(2) {
+                free::reset_run_state();
+                let want = checks::c18::in_process_digest(&sc.group, op);
+                let got = fresh_digest(&sc.group, op);
+                ph.evaluations += 1;
+                distinct.insert(want.clone());
+                match got {
+                    None => ph.error = Some("fresh process produced no digest".into()),
+                    Some(g) if g != want => ph.found.push((
+                        runner::Violation::new(
+                            "result_differs_in_fresh_process",
+                            "fresh process",
+                            format!("operation {:?}: {} in this process but {} as the first library call of a fresh process", format!("{:?}", op).chars().take(120).collect::<String>(), want, g),
+                        ),
+                        serde_json::json!({"single_op": op, "group": sc.group, "in_process_digest": want}),
+                    )),
+                    _ => {},
+                }
+            }
+        }
+    }
+    *ph.faults.entry("fresh_process_baseline".into()).or_insert(0) += ph.evaluations;
+    ph.distinct = distinct.len() as u64;
+    ph
+}
+
 fn main() {
     let args: Vec<String> = std::env::args().skip(1).collect();
     if args.is_empty() {
@@ -185,6 +319,36 @@ fn main() {
             let path = &args[1];
             let f: ReplayFile =
                 serde_json::from_str(&std::fs::read_to_string(path).expect("read replay file")).expect("replay parses");
+            if let Some(m) = f.scenario.get("miri") {
+                // a schedule found by Miri: re-run the same scenario under the same seed
+                let run: miri::MiriRun = serde_json::from_value(m.clone()).expect("miri run parses");
+                let root = std::env::var("BPSIM_ROOT").map(PathBuf::from).unwrap_or_else(|_| PathBuf::from("/verif"));
+                let o = miri::run_miri(&root, &run);
+                match miri::violation_of(&run, &o) {
+                    Some(v) => {
+                        println!("violation: invariant={} detail={}", v.invariant, v.detail);
+                        println!("VIOLATION property={} replay={}", f.property, path);
+                        std::process::exit(1);
+                    },
+                    None => {
+                        println!("replay of {} did not reproduce ({:?})", path, o);
+                        std::process::exit(if matches!(o, miri::MiriOutcome::HarnessError { .. }) { 2 } else { 0 });
+                    },
+                }
+            }
+            if let Some(op) = f.scenario.get("single_op") {
+                let group = f.scenario["group"].as_str().unwrap_or("ristretto").to_string();
+                let opv: checks::c18::Op = serde_json::from_value(op.clone()).expect("op parses");
+                let fresh = fresh_digest(&group, &opv);
+                let here = checks::c18::in_process_digest(&group, &opv);
+                let want = f.scenario["in_process_digest"].as_str().unwrap_or("").to_string();
+                println!("fresh process: {:?}; this process: {}; recorded in-process digest: {}", fresh, here, want);
+                if fresh.as_deref() != Some(want.as_str()) {
+                    println!("VIOLATION property={} replay={}", f.property, path);
+                    std::process::exit(1);
+                }
+                std::process::exit(0);
+            }
             macro_rules! rp {
                 ($($id:literal => $c:expr),* $(,)?) => {
                     match f.property.as_str() {
@@ -205,6 +369,8 @@ fn main() {
                 "C13" => checks::c13::C13,
                 "C14" => checks::c14::C14,
                 "C02" => checks::c02::C02,
+                "C11" => checks::c11::C11,
+                "C18" => checks::c18::C18,
                 "C04" => checks::c04::C04,
                 "C08" => checks::c08::C08,
                 "C12" => checks::c12::C12,
@@ -219,6 +385,20 @@ fn main() {
         "C08" => drive(&checks::c08::C08, &parse_opts(&args[1..]), vec![]),
         "C12" => drive(&checks::c12::C12, &parse_opts(&args[1..]), vec![]),
         "C14" => drive(&checks::c14::C14, &parse_opts(&args[1..]), vec![]),
+        "gens-digest" => checks::c11::gens_digest_cli(args.get(1).map(|s| s.as_str()).unwrap_or("1")),
+        "single-op" => checks::c18::single_op_cli(&args[1], &args[2]),
+        "C11" => {
+            let opts = parse_opts(&args[1..]);
+            let mut extra = vec![fresh_process_gens_phase()];
+            extra.push(miri::miri_phase("miri_statics_race", &opts.root, miri_runs_c11(&opts), opts.jobs));
+            drive(&checks::c11::C11, &opts, extra)
+        },
+        "C18" => {
+            let opts = parse_opts(&args[1..]);
+            let mut extra = vec![fresh_process_ops_phase(&opts)];
+            extra.push(miri::miri_phase("miri_threads", &opts.root, miri_runs_c18(&opts), opts.jobs));
+            drive(&checks::c18::C18, &opts, extra)
+        },
         "C16" => {
             let opts = parse_opts(&args[1..]);
             if opts.child_json.is_some() {
